@@ -316,7 +316,9 @@ impl<'a> ClientRequest<'a> {
                 })
                 .and_then(|l| {
                     if l.starts_with('/') {
-                        self.request.uri = l;
+                        let (path, query) = l.split_once('?').unwrap_or((&l, ""));
+                        self.request.query = query.to_string();
+                        self.request.uri = path.to_string();
                     } else {
                         let new_url = Client::parse_url(l).ok_or("Invalid URL")?;
                         let request = Request {
